@@ -296,7 +296,7 @@ func runImpl(in io.Reader, out io.Writer) {
 			}()
 			select {
 			case res = <-done:
-			case <-time.After(callDeadline(1500)):
+			case <-time.After(1500 * time.Second): // (not scaled with the tier: a whole case may hold dozens of calls)
 				res = map[string]any{"outcome": "timeout", "err": "the case did not come back (a library call outside the op's own deadlines blocked)"}
 			}
 		} else {
@@ -819,7 +819,9 @@ func implC16(h caseHead, raw []byte) (res map[string]any) {
 		pc := func(ind string) string {
 			return ind + "propertyConstraints:\n" + ind + "  " + yq(ch.Text) + ":\n" + ind + "    minCount: 1\n"
 		}
-		ok := func(ind string) string { return ind + "propertyConstraints:\n" + ind + "  ex.p0:\n" + ind + "    minCount: 1\n" }
+		ok := func(ind string) string {
+			return ind + "propertyConstraints:\n" + ind + "  ex.p0:\n" + ind + "    minCount: 1\n"
+		}
 		res["asElse"] = deep("    if:\n" + ok("      ") + "    then:\n" + ok("      ") + "    else:\n" + pc("      "))
 		res["asThen"] = deep("    if:\n" + ok("      ") + "    then:\n" + pc("      "))
 		res["asOrOperand"] = deep("    or:\n      -\n" + ok("        ") + "      -\n" + pc("        "))
